@@ -924,8 +924,13 @@ def check_axisangle_structure(ctx: Check, tree: Tree) -> None:
             if len(g) == 1:
                 in_body = any(d.node is n for b in g[0].body for n in ast.walk(b))
                 t = g[0].test
+                negated = False
+                while isinstance(t, ast.UnaryOp) and isinstance(t.op, ast.Not):
+                    t, negated = t.operand, not negated
                 is_none = isinstance(t, ast.Compare) and isinstance(t.ops[0], ast.Is) and unparse(t.left) == "helicity_symbol" and unparse(t.comparators[0]) == "None"
                 is_not_none = isinstance(t, ast.Compare) and isinstance(t.ops[0], ast.IsNot) and unparse(t.left) == "helicity_symbol" and unparse(t.comparators[0]) == "None"
+                if negated:
+                    is_none, is_not_none = is_not_none, is_none
                 symbol_given = (is_none and not in_body) or (is_not_none and in_body)
                 by["given" if symbol_given else "none"] = unparse(d.value)
         ok_sp = by.get("given") == "helicity_symbol" and by.get("none", "").endswith(".spin_projection")
